@@ -366,6 +366,7 @@ func runC02(c *Check) {
 	ruleApplyStepNilMeansCaughtUp(c, p, "C02-R16", steps)
 	ruleMarksAfterItems(c, p, "C02-R10")
 	ruleSeenCensus(c, p, "C02-R12", steps)
+	ruleItemRemovalCensus(c, p, "C02-R17", steps)
 	c.Doc("C02-R13", "= C05-R2: on every start the chain height is raised to the persisted state's height (the apply step writes block, state, height in that order: a stop between the state and the height write leaves the store height one behind; the sync loop picks the next block by the store height and validates it against the state, so without the reconciliation every re-delivery of that block fails validation and the node gives up at every start).")
 	ruleRestartReconciliation(c, p, "C02-R13")
 	ruleDropDecisionsArePure(c, p, "C02-R14")
@@ -699,4 +700,124 @@ func ruleApplyStepNilMeansCaughtUp(c *Check, p *Prog, rule string, steps []*ssa.
 	if n == 0 {
 		c.Unk(rule, "anchor-count", "", "", "anchor lost: no apply step decided")
 	}
+}
+
+// ruleItemRemovalCensus (C05-R12 = C02-R17): a header or data item waiting in the caches is the
+// only copy the node has of a block part it has already marked seen — a re-delivery is dropped
+// as a duplicate. An item therefore leaves a cache only when its block is committed: every call
+// of a cache method that removes items is in the apply step, behind the success edge of
+// Store.SetHeight. Who may remove: the methods of the cache that delete from the item map are
+// found by what they do, so a new "prune" method is under the same rule as DeleteItem.
+func ruleItemRemovalCensus(c *Check, p *Prog, rule string, steps []*ssa.Function) {
+	c.Doc(rule, "CS+EO: every call, outside the cache package, of a cache method that deletes from the item map (found by behaviour: a sync.Map Delete / LoadAndDelete / Clear / Range-and-Delete on the map GetItem reads) is in the apply step behind the success edge of Store.SetHeight; nowhere else — not at start-up, not on a timer.")
+	cachePkg := rootPath + "/pkg/cache"
+	// the item map: the receiver field GetItem loads from
+	itemField := ""
+	for _, f := range p.Funcs {
+		if pk := fnPkg(f); pk == nil || pk.Pkg.Path() != cachePkg || f.Name() != "GetItem" {
+			continue
+		}
+		for _, b := range f.Blocks {
+			for _, in := range b.Instrs {
+				if call, ok := in.(*ssa.Call); ok && strings.HasSuffix(commonName(call.Common()), "sync.Map).Load") && len(call.Common().Args) > 0 {
+					if ld, ok := call.Common().Args[0].(*ssa.UnOp); ok {
+						if fa, ok := ld.X.(*ssa.FieldAddr); ok {
+							itemField = fieldLabel(fa.X.Type(), fa.Field)
+						}
+					}
+				}
+			}
+		}
+	}
+	if itemField == "" {
+		c.Unk(rule, "cache ⟂ item map", "", "", "anchor lost: the map GetItem reads")
+		return
+	}
+	removers := map[string]bool{}
+	for _, f := range p.Funcs {
+		pk := fnPkg(f)
+		if pk == nil || pk.Pkg.Path() != cachePkg || f.Blocks == nil {
+			continue
+		}
+		for _, b := range f.Blocks {
+			for _, in := range b.Instrs {
+				call, ok := in.(ssa.CallInstruction)
+				if !ok {
+					continue
+				}
+				cn := commonName(call.Common())
+				if !(strings.HasSuffix(cn, "sync.Map).Delete") || strings.HasSuffix(cn, "sync.Map).LoadAndDelete") || strings.HasSuffix(cn, "sync.Map).CompareAndDelete") || strings.HasSuffix(cn, "sync.Map).Clear")) || len(call.Common().Args) == 0 {
+					continue
+				}
+				// the map: a load of the receiver's field, or (in a closure) of the captured receiver's field
+				onItems := false
+				var walk func(v ssa.Value, d int)
+				walk = func(v ssa.Value, d int) {
+					if v == nil || d > 4 {
+						return
+					}
+					switch x := v.(type) {
+					case *ssa.UnOp:
+						walk(x.X, d+1)
+					case *ssa.FieldAddr:
+						if fieldLabel(x.X.Type(), x.Field) == itemField {
+							onItems = true
+						}
+					}
+				}
+				walk(call.Common().Args[0], 0)
+				if onItems {
+					top := topParent(f)
+					removers[genericName(fnName(top))] = true
+				}
+			}
+		}
+	}
+	if len(removers) == 0 {
+		c.Unk(rule, "cache ⟂ removers", "", "", "anchor lost: no cache method deletes from the item map")
+		return
+	}
+	isApply := map[*ssa.Function]bool{}
+	for _, s := range steps {
+		isApply[s] = true
+	}
+	n := 0
+	for _, f := range p.Funcs {
+		pk := fnPkg(f)
+		if pk == nil || !strings.HasPrefix(pk.Pkg.Path(), rootPath) || f.Blocks == nil || pk.Pkg.Path() == cachePkg {
+			continue
+		}
+		var sites []ssa.Instruction
+		for _, b := range f.Blocks {
+			for _, in := range b.Instrs {
+				if call, ok := in.(ssa.CallInstruction); ok && removers[genericName(commonName(call.Common()))] {
+					sites = append(sites, in)
+				}
+			}
+		}
+		if len(sites) == 0 {
+			continue
+		}
+		top := topParent(f)
+		for _, site := range sites {
+			site := site
+			n++
+			inst := "item removal in " + fnShort(f) + " ⟂ " + genericName(commonName(site.(ssa.CallInstruction).Common()))
+			if !isApply[top] {
+				c.Bad(rule, inst, fnName(f), p.InstrPos(site), "items are removed from a header / data cache outside the apply step: an item that is waiting for its block (its hash already marked seen, so a re-delivery is dropped as a duplicate) can be thrown away — the node then holds neither the part nor a way to get it again, and never passes that height", nil)
+				continue
+			}
+			ga := BuildECFG(p, top, ownPkgOpts(rootPath+"/block", 2))
+			c.NoteGraph(ga)
+			hOK := ga.Select(ErrNilEdge(func(t *Term) bool { return t.IsCall("pkg/store.Store).SetHeight") }))
+			isSite := func(x *Node) bool { return x.Kind == NInstr && x.In == site }
+			c.Decide(rule, inst, fnName(f), p.InstrPos(site), "in the apply step, behind the success edge of Store.SetHeight",
+				"the apply step removes an item from the cache on a path that has not passed the successful Store.SetHeight of its block: the part is gone while the block is not committed", ga,
+				ga.PathAvoiding([]*Node{ga.Entry}, isSite, nodeSet(hOK)))
+		}
+	}
+	if n == 0 {
+		c.Unk(rule, "item removals", "", "", "anchor lost: no call of a removing cache method found")
+	}
+	c.MinInstances(rule, 2)
 }
